@@ -20,6 +20,9 @@ import (
 	"encoding/base64"
 	"runtime"
 	"strconv"
+	"strings"
+	"unicode/utf16"
+	"unicode/utf8"
 	"unsafe"
 
 	"github.com/cloudwego/dynamicgo/internal/native/types"
@@ -80,6 +83,83 @@ func decodeString(src string, pos int) (ret int, v string) {
 
 	runtime.KeepAlive(src)
 	return ret, rt.Mem2Str(vv)
+}
+
+func unhex4(s string) (r rune, ok bool) {
+	for i := 0; i < 4; i++ {
+		c := s[i]
+		switch {
+		case c >= '0' && c <= '9':
+			c -= '0'
+		case c >= 'a' && c <= 'f':
+			c -= 'a' - 10
+		case c >= 'A' && c <= 'F':
+			c -= 'A' - 10
+		default:
+			return 0, false
+		}
+		r = r<<4 | rune(c)
+	}
+	return r, true
+}
+
+// Unquote appends the unescaped content of the JSON string body s (without the surrounding quotes) to buf.
+// It accepts exactly what the native unquote() accepts: bytes other than '\\' are copied as they are,
+// the escapes are \" \\ \/ \b \f \n \r \t \uXXXX, and a UTF-16 surrogate must be part of a valid pair.
+// On failure, ret is a negative types.ParsingError.
+func Unquote(buf []byte, s string) (out []byte, ret int) {
+	for i := 0; i < len(s); {
+		j := strings.IndexByte(s[i:], '\\')
+		if j < 0 {
+			return append(buf, s[i:]...), 0
+		}
+		buf = append(buf, s[i:i+j]...)
+		i += j + 2
+		if i > len(s) {
+			return buf, -int(types.ERR_EOF)
+		}
+		switch c := s[i-1]; c {
+		case '"', '\\', '/':
+			buf = append(buf, c)
+		case 'b':
+			buf = append(buf, '\b')
+		case 'f':
+			buf = append(buf, '\f')
+		case 'n':
+			buf = append(buf, '\n')
+		case 'r':
+			buf = append(buf, '\r')
+		case 't':
+			buf = append(buf, '\t')
+		case 'u':
+			if i+4 > len(s) {
+				return buf, -int(types.ERR_EOF)
+			}
+			r, ok := unhex4(s[i:])
+			if !ok {
+				return buf, -int(types.ERR_INVALID_CHAR)
+			}
+			i += 4
+			if utf16.IsSurrogate(r) {
+				if r >= 0xdc00 || i+6 > len(s) || s[i] != '\\' || s[i+1] != 'u' {
+					return buf, -int(types.ERR_INVALID_UNICODE)
+				}
+				r2, ok := unhex4(s[i+2:])
+				if !ok {
+					return buf, -int(types.ERR_INVALID_CHAR)
+				}
+				if r = utf16.DecodeRune(r, r2); r == utf8.RuneError {
+					return buf, -int(types.ERR_INVALID_UNICODE)
+				}
+				i += 6
+			}
+			var tmp [utf8.UTFMax]byte
+			buf = append(buf, tmp[:utf8.EncodeRune(tmp[:], r)]...)
+		default:
+			return buf, -int(types.ERR_INVALID_ESCAPE)
+		}
+	}
+	return buf, 0
 }
 
 func decodeBinary(src string, pos int) (ret int, v []byte) {
